@@ -154,6 +154,7 @@ const (
 	FConflict               // one deliberately conflicting conjunct (error status must agree)
 	FStructDisj             // struct disjunctions with a discriminator field
 	FSelectors              // references through selectors (e.g. x.a), wrapped refs (ref & T, {ref})
+	FDerived                // extra fields x1, x2 holding (possibly incomplete) arithmetic over int fields
 )
 
 // Prelude is declared at the top of every program that uses FRefTypes.
@@ -322,7 +323,16 @@ func (g *G) boundTerm(w *W) *Term {
 	t := g.T
 	switch w.kind {
 	case "int":
-		switch rapid.IntRange(0, 4).Draw(t, "bk") {
+		switch rapid.IntRange(0, 7).Draw(t, "bk") {
+		case 5:
+			return tx(fmt.Sprintf(">%d", w.n-1-rapid.IntRange(0, 1).Draw(t, "bd")))
+		case 6: // a pair that coincides with a predeclared sized range
+			if w.n >= 0 {
+				return tx(rapid.SampledFrom([]string{"(>=0 & <=255)", "(>=0 & <=65535)", "(>=0 & <=255.0)", "(>=0.0 & <=65535)"}).Draw(t, "sized"))
+			}
+			return tx(rapid.SampledFrom([]string{"(>=-128 & <=127)", "(>=-32768 & <=32767)", "(>=-128.0 & <=127)"}).Draw(t, "sizedn"))
+		case 7:
+			return tx(fmt.Sprintf("(>%d & < %d)", w.n-1-rapid.IntRange(0, 1).Draw(t, "bd"), w.n+rapid.IntRange(1, 4).Draw(t, "bd2")))
 		case 0:
 			return tx(fmt.Sprintf(">=%d", w.n-rapid.IntRange(0, 2).Draw(t, "bd")))
 		case 1:
